@@ -163,6 +163,11 @@ ResultOK(a, ev) ==
                             LET f == BigFirst(p)
                             IN  ev.kind = "opt" /\ (IF f = <<>> THEN ev.found = 0
                                                     ELSE ev.found = 1 /\ ev.rk[1] = f[1].k /\ ev.rv[1] = f[1].v)
+                       [] k \in {"find_idx", "first_idx"} ->
+                            LET f == BigFirst(p)
+                            IN  ev.kind = "optidx" /\ (IF f = <<>> THEN ev.found = 0
+                                                       ELSE ev.found = 1 /\ ev.rk[1] = f[1].k /\ ev.rv[1] = f[1].v
+                                                            /\ ev.idx = RootOf(p, f[1].k))
                        [] k \in {"any", "all"} ->
                             ev.kind = "bool" /\ (ev.b = 1) = ((BigFirst(p) # <<>>) = (k = "any"))
                        [] k = "reduce" /\ p.term.op = "add" ->
